@@ -298,13 +298,19 @@ func (r *Run) Finish() int {
 	if r.Assumptions == nil {
 		ev["assumptions"] = []string{}
 	}
-	os.MkdirAll(filepath.Join(root, "evidence"), 0755)
+	evDir := filepath.Join(root, "evidence")
+	if d := os.Getenv("VERIF_EVIDENCE_DIR"); d != "" {
+		// development aid (mutant runs, seed sweeps): keep the registered
+		// evidence files untouched
+		evDir = d
+	}
+	os.MkdirAll(evDir, 0755)
 	b, err := json.MarshalIndent(ev, "", " ")
 	if err != nil {
 		fmt.Println("evidence marshal error:", err)
 		return 2
 	}
-	out := filepath.Join(root, "evidence", r.Prop+".json")
+	out := filepath.Join(evDir, r.Prop+".json")
 	tmp := out + fmt.Sprintf(".tmp%d", os.Getpid())
 	if err := os.WriteFile(tmp, b, 0644); err != nil {
 		fmt.Println("evidence write error:", err)
